@@ -136,6 +136,21 @@ def c17_r3(ctx, f):
         ctx.anchor_missing(rid, OPTS)
         return
     n = 0
+    # a field whose type fixes the length ([u8; 4], Option<[f64; 2]>, (f64, f64)) holds the invariant by construction
+    import re as _re
+    for fl in adt["variants"][0]["fields"]:
+        w_ = want_len.get(fl["name"])
+        if w_ is None:
+            continue
+        m_ = _re.search(r"\[[^;\]]+; (\d+)\]", fl.get("ty") or "")
+        if m_ and (int(m_.group(1)) == w_ or (isinstance(w_, tuple) and int(m_.group(1)) in w_)):
+            ctx.ok(rid, "SvgOptions.%s has type %s: its length is fixed by the type" % (fl["name"], fl["ty"]))
+            want_len = {k: v for k, v in want_len.items() if k != fl["name"]}
+            n += 10
+        elif _re.match(r"^(std::option::Option<)?\(f64, f64\)>?$", fl.get("ty") or "") and isinstance(w_, tuple):
+            ctx.ok(rid, "SvgOptions.%s has type %s: its shape is fixed by the type" % (fl["name"], fl["ty"]))
+            want_len = {k: v for k, v in want_len.items() if k != fl["name"]}
+            n += 10
     for fn in wasm_fns(f):
         for b in fn.blocks:
             if b["cleanup"]:
@@ -239,6 +254,16 @@ def _vec_literal_len(fn, o):
         return None
     if nm in ("std::vec::from_elem",):
         return None
+    if nm.endswith("::to_vec") or nm.endswith("::to_owned") or "as std::convert::From<" in nm and "Vec" in nm:
+        # a copy of a constant array / slice constant: its length is the constant's
+        try:
+            e = fn.canon(o.info.call["args"][0], o.point)
+        except Exception:  # noqa: BLE001
+            return None
+        from .mir import subexprs as _sub
+        ks = [x for x in _sub(e) if x[0] == "K" and isinstance(x[1], (tuple, list))]
+        if len(ks) == 1 and all(isinstance(v, int) for v in ks[0][1]):
+            return len(ks[0][1])
     return None
 
 
